@@ -608,3 +608,62 @@ Proof.
   intros ik x. unfold make_fields. rewrite <- in_app_iff. generalize (map fst (ik_vars ik) ++ ik_comps ik). intros l.
   induction l as [|y r IH]; cbn [fold_right In]; [tauto|]. rewrite insert_sorted_In, IH. intuition.
 Qed.
+
+(** * Count-key threading through reference chains *)
+
+Lemma populate_plural : forall cid args ck fs o,
+  populate cid args (PPlural ck fs o) =
+  match alookup cid args with
+  | None => PPlural ck (map (populate cid args) fs) (populate cid args o)
+  | Some (PaVal (PVar k _)) => PPlural k (map (populate cid args) fs) (populate cid args o)
+  | Some (PaCountLit n _) => nth n (map (populate cid args) fs ++ [populate cid args o]) (PLit LString)
+  | Some (PaVal _) => PPlural ck fs o
+  end.
+Proof. intros. cbn [populate]. destruct (alookup cid args) as [[[]|]|]; reflexivity. Qed.
+
+Lemma populate_ranges : forall cid args ty ck bs,
+  populate cid args (PRanges ty ck bs) =
+  match alookup cid args with
+  | None => PRanges ty ck (map (populate cid args) bs)
+  | Some (PaVal (PVar k _)) => PRanges ty k (map (populate cid args) bs)
+  | Some (PaCountLit n _) => nth n (map (populate cid args) bs) (PLit LString)
+  | Some (PaVal _) => PRanges ty ck bs
+  end.
+Proof. intros. cbn [populate]. destruct (alookup cid args) as [[[]|]|]; reflexivity. Qed.
+
+(** C08_chain_count_key: populating a plural / range
+      - without a `count` argument keeps its count key (whatever other arguments are passed),
+      - with a single variable makes that variable the count key,
+      - with a literal number yields the selected branch: the node and its count are gone;
+    hence a renamed count survives any number of further hops that pass no `count` *)
+Theorem chain_count_key : forall cid args,
+  (alookup cid args = None ->
+     (forall ck fs o, populate cid args (PPlural ck fs o) = PPlural ck (map (populate cid args) fs) (populate cid args o)) /\
+     (forall ty ck bs, populate cid args (PRanges ty ck bs) = PRanges ty ck (map (populate cid args) bs))) /\
+  (forall k f, alookup cid args = Some (PaVal (PVar k f)) ->
+     (forall ck fs o, populate cid args (PPlural ck fs o) = PPlural k (map (populate cid args) fs) (populate cid args o)) /\
+     (forall ty ck bs, populate cid args (PRanges ty ck bs) = PRanges ty k (map (populate cid args) bs))) /\
+  (forall n t, alookup cid args = Some (PaCountLit n t) ->
+     (forall ck fs o, populate cid args (PPlural ck fs o) = nth n (map (populate cid args) fs ++ [populate cid args o]) (PLit LString)) /\
+     (forall ty ck bs, populate cid args (PRanges ty ck bs) = nth n (map (populate cid args) bs) (PLit LString))).
+Proof.
+  intros cid args. repeat split; intros; rewrite ?populate_plural, ?populate_ranges;
+    match goal with H : alookup _ _ = _ |- _ => rewrite H end; reflexivity.
+Qed.
+
+Lemma count_keys_plural : forall k fs o, hd_error (count_keys (PPlural k fs o)) = Some (k, RPlural).
+Proof. intros. unfold count_keys. cbn [events ev_counts flat_map app hd_error]. reflexivity. Qed.
+
+(** the chain of the finding: `things = $t(items, {"count": "{{ n }}"})`, then any hops without `count` *)
+Theorem chain_rename_then_plain : forall cid k f ck fs o (hops : list (list (key * parg))),
+  (forall a, In a hops -> alookup cid a = None) ->
+  exists fs' o',
+    fold_left (fun v a => populate cid a v) hops (populate cid [(cid, PaVal (PVar k f))] (PPlural ck fs o)) = PPlural k fs' o'
+    /\ hd_error (count_keys (PPlural k fs' o')) = Some (k, RPlural).
+Proof.
+  intros cid k f ck fs o hops. rewrite populate_plural. cbn [alookup]. rewrite N.eqb_refl.
+  generalize (map (populate cid [(cid, PaVal (PVar k f))]) fs) as fs0. generalize (populate cid [(cid, PaVal (PVar k f))] o) as o0.
+  induction hops as [|a r IH]; intros o0 fs0 H; cbn [fold_left].
+  - exists fs0, o0. split; [reflexivity | apply count_keys_plural].
+  - rewrite populate_plural, (H a (or_introl eq_refl)). apply IH. intros a' Ha'. apply H. right. exact Ha'.
+Qed.
